@@ -13,6 +13,8 @@ def offset_contract(qualname, props, start, end, use_stmts, params=None, variant
         props=props,
         params=dict(dict(self='TypeBlocks'), **(params or {})), order=['self'], variants=variants,
         lenient=True, lenient_protect=[start, end] + list(protect),
+        # whether a block holds an addressed cell is up to the caller's Boolean key: either outcome can be arranged for every block independently
+        free_conditions=['not target.any()'],
         is_generator=generator,
         requires=['Dir(self)'] + list(requires),
         raises=raises or {},
@@ -47,9 +49,10 @@ offset_contract('TypeBlocks._assign_from_bloc_by_blocks', ['C08', 'C03'], 't_sta
 # Frame.fillna(<Frame>) / assign by Boolean blocks: one Boolean target per block, the frame-wide value / validity arrays are cut by the running offset
 _LEN = 't <= len(self._blocks) and t <= len(targets)'
 contract(TB, 'TypeBlocks._assign_from_boolean_blocks_by_unit',
-    props=['C14', 'C08', 'C03'],
+    props=['C14', 'C08', 'C03', 'C11'],
     params=dict(self='TypeBlocks', targets='list[arr]'), order=['self', 'targets', 'value', 'value_valid'],
     lenient=True, lenient_protect=['start', 'end', 'is_element'],
+    free_conditions=['not target.any()'],      # the Boolean targets are the caller's: any pattern per block
     is_generator=True,
     requires=['Dir(self)'],
     raises={'RuntimeError': 'len(targets) != len(self._blocks)', 'AssertionError': 'maybe', 'Exception': 'maybe'},
@@ -58,9 +61,10 @@ contract(TB, 'TypeBlocks._assign_from_boolean_blocks_by_unit',
     ghost_after={'value_part = value[NULL_SLICE, value_slice][target]': ['assert start == at(self._offs, t) and end == at(self._offs, t + 1)']})
 
 contract(TB, 'TypeBlocks._assign_from_boolean_blocks_by_blocks',
-    props=['C14', 'C08', 'C03'],
+    props=['C14', 'C08', 'C03', 'C11'],
     params=dict(self='TypeBlocks', targets='list[arr]'), order=['self', 'targets', 'values'],
     lenient=True, lenient_protect=['start', 'end'],
+    free_conditions=['not target.any()', 'not target_sub.any()', 'target_sub.all()'],      # the Boolean targets are the caller's: any pattern per block / column
     is_generator=True,
     # each Boolean target has the shape of its block
     requires=['Dir(self)', 'forall_in(0, len(targets), lambda k: implies(k < len(self._blocks), at(targets, k).ndim == at(self._blocks, k).ndim and at(targets, k).rows == at(self._blocks, k).rows and at(targets, k).cols == at(self._blocks, k).cols))'],
